@@ -203,6 +203,14 @@ def producer_tie(ctx, variant, seed, count):
 
 def run(ctx):
     proof_ok, proof = common.proof_status(ctx, "C07")
+    # the hand-written machine listings tied to the source: every signed-integer operation of the modelled functions (clang AST,
+    # regenerated from the tree under check) is covered by a named listing value or excluded with a reason (Properties_C07_listing.v)
+    from checks import c07_listing
+    listing = c07_listing.check(ctx)
+    for k in ("obligations", "discharged"):
+        proof[k] = proof.get(k, 0) + listing["proof"].get(k, 0)
+    proof["theorems"] = list(proof.get("theorems", [])) + listing["proof"].get("theorems", [])
+    proof["coq_files_in_scope"] = sorted(set(proof.get("coq_files_in_scope", [])) | set(listing["proof"].get("coq_files_in_scope", [])))
     s = ctx.seed
     variants = ["asan"] if ctx.quick else ["asan", "asan-ndebug", "plain"]
     nflow = 2000 if ctx.quick else 30000
@@ -248,7 +256,9 @@ def run(ctx):
     if not bad and not proof_ok:
         ctx.violation("proof obligations of Properties_C07.v do not check", {"broken": "Properties_C07.v", "detail": proof}, found_input=False)
     cov = dict(proof)
-    cov.update({"trusted_base": common.TRUSTED_BASE + ["g++ 12 sanitizer runtimes (ASan, UBSan); the C++ type annotations of the machine model are hand-transcribed",
+    cov["listing_tie"] = {k: listing.get(k) for k in ("counts", "first_difference", "translator_error", "callees_outside_table")}
+    cov.update({"trusted_base": common.TRUSTED_BASE + ["tools/machine_ops.py (clang AST translator) and its table of functions per listing",
+                                                        "g++ 12 sanitizer runtimes (ASan, UBSan); the C++ type annotations of the machine model are hand-transcribed",
                                                         "memory safety and termination of Eigen / lemon / boost / libstdc++ use are OBSERVED on the generated cases, not proved"],
                 "evaluations": total, "distinct_nontrivial": total - len(bad),
                 "rule": "PARAMETERS of the flow streams: ~60% of the FL cases carry a variation seed: starting from the effort's defaults each knob is redrawn with "
@@ -283,6 +293,9 @@ def run(ctx):
 
 def replay(ctx, path):
     r = json.load(open(path))["replay"]
+    if "case" not in r:
+        from checks import c07_listing
+        return c07_listing.replay(ctx, path)
     case = r["case"]
     name = {"FL": "flow", "LG": "legal", "DP": "detailed", "DO": "dopt", "DM": "dplace", "RL": "rowleg",
             "M1": "c07mag", "M2": "c07mag", "M3": "c07mag", "M4": "c07mag", "M5": "c07mag"}[case[:2]]
